@@ -105,7 +105,7 @@ func H_C10_parse(n int) {
 		_, typedS := serr.(*NumberFormatError[string])
 		vAssert("string-typed-zero", typedS && sv == 0)
 	}
-	var u Number
+	u := Number(vU64("prev")) // whatever the variable held before
 	uerr := u.UnmarshalText(in)
 	vAssert("unmarshaltext", (uerr == nil) == (ok || n == 0) && (uerr != nil || uint64(u) == want))
 }
